@@ -542,6 +542,36 @@ func vApplyC03(s *vbe.Store, m vMutC03) bool {
 	return true
 }
 
+// effective lists, after all changes were applied to s, the touched files whose stored
+// bytes really differ from the healthy repository (two changes may cancel each other), as
+// synthetic changes with Op "delete" (file gone) or "set" (content differs).
+func (r *vRepoC03) effective(s *vbe.Store, muts []vMutC03) []vMutC03 {
+	var out []vMutC03
+	seen := map[string]bool{}
+	for _, m := range muts {
+		names := []string{m.Name}
+		if m.Op == "swap" || m.Op == "blobswap" {
+			names = append(names, m.Other)
+		}
+		for _, name := range names {
+			if seen[m.Type+"/"+name] {
+				continue
+			}
+			seen[m.Type+"/"+name] = true
+			ft := vFileTypeC03(m.Type)
+			old, _ := r.e.store.Get(ft, name)
+			cur, ok := s.Get(ft, name)
+			switch {
+			case !ok:
+				out = append(out, vMutC03{Type: m.Type, Name: name, Op: "delete"})
+			case !bytes.Equal(old, cur):
+				out = append(out, vMutC03{Type: m.Type, Name: name, Op: "set"})
+			}
+		}
+	}
+	return out
+}
+
 // depended decides from the model whether `check --read-data` must report the change.
 func (r *vRepoC03) depended(m vMutC03) bool {
 	ft := vFileTypeC03(m.Type)
